@@ -70,6 +70,12 @@ class ForLoop:
             indices = np.array(res[0].T, dtype=int)
         else:
             indices = self.values
+        if np.size(indices) > 0 and np.min(indices) <= 0:
+            # CasADi would silently wrap a negative (0-based) index around.
+            raise ValueError(
+                "Index {} of symbol {} in for-loop over {} is out of bounds "
+                "(Modelica uses 1-based indexing).".format(int(np.min(indices)), tree.name, self.name)
+            )
         self.indexed_symbols[e] = ForLoopIndexedSymbol(tree, transpose, index_function(indices - 1))
 
 
@@ -917,6 +923,17 @@ class Generator(TreeListener):
                             )
                         sl = sl - 1
                     elif isinstance(sl, slice):
+                        for bound in (sl.start, sl.stop):
+                            if isinstance(bound, int) and (bound <= 0 or bound > dim):
+                                if sl.start is not None and sl.stop is not None and sl.start > sl.stop:
+                                    continue  # empty range, selects nothing
+                                raise ValueError(
+                                    "Slice {}:{} of symbol {} is out of bounds. "
+                                    "Indices should be in range [1,{}] "
+                                    "(Modelica uses 1-based indexing).".format(
+                                        sl.start, sl.stop, s.name(), dim
+                                    )
+                                )
                         # Modelica indexing starts from one;  Python from zero.
                         sl = slice(None if sl.start is None else sl.start - 1, sl.stop, sl.step)
                     else:
